@@ -104,5 +104,6 @@ def printrun_functions():
           printcore._readline, printcore.send, printcore.startprint, printcore._listen_until_online,
           PrintrunWriter.write, PrintrunWriter._send_statement, PrintrunWriter._on_device_message,
           PrintrunWriter._on_printrun_error, PrintrunWriter._abort_on_device_error,
-          PrintrunWriter._wait_for_acknowledgment, PrintrunWriter._wait_for_pending_operations]
+          PrintrunWriter._wait_for_acknowledgment, PrintrunWriter._wait_for_pending_operations,
+          PrintrunWriter._parse_message, PrintrunWriter._update_param, PrintrunWriter.get_parameter]
     return fs
